@@ -144,6 +144,7 @@ where
                 let vmax = vdomain.max();
                 let wmin = wdomain.min();
                 let wmax = wdomain.max();
+                let walked = [uwalk.clone(), vwalk.clone(), wwalk.clone()];
                 // The constraint is: u * v = w  <=>  u = w / v  <=>  v = w / u
                 //
                 // Given domains for u and v, we can then deduce that the domain of w must be
@@ -177,7 +178,7 @@ where
                                 ..=wmax.checked_div(umin).unwrap_or(vmax),
                         )),
                     )?
-                    .with_constraint(self))
+                    .with_constraint_or_rerun(self, &walked)?)
             }
             // If all operators do not yet have domains, then keep the constraint until it can
             // be used to constrain some domains.
